@@ -29,3 +29,48 @@ package wallet
 //@   ensures @len [C10] err == nil ==> len(result) == len(blindedSignatures)
 //@   ensures @checked [C10] err == nil ==> (forall j :: 0 <= j && j < len(blindedSignatures) ==> (blindedSignatures[j].Amount in keyset.PublicKeys) && result[j].Amount == blindedSignatures[j].Amount && result[j].Secret == secrets[j] && result[j].Id == blindedSignatures[j].Id && hexok(blindedSignatures[j].C_) && result[j].C == hexenc(pt.ser(padd(pt.parse(hexdec(blindedSignatures[j].C_)), smul(sneg(sc.of(rs[j].Key)), pk.pt(*keyset.PublicKeys[blindedSignatures[j].Amount]))))) && ((blindedSignatures[j].DLEQ == nil) <==> (result[j].DLEQ == nil)) && (blindedSignatures[j].DLEQ != nil ==> wbsdleq(*blindedSignatures[j].DLEQ, *keyset.PublicKeys[blindedSignatures[j].Amount], blindedMessages[j].B_, blindedSignatures[j].C_) && result[j].DLEQ.E == blindedSignatures[j].DLEQ.E && result[j].DLEQ.S == blindedSignatures[j].DLEQ.S && result[j].DLEQ.R == hexenc(sc.ser(sc.of(rs[j].Key)))))
 //@   loop range(blindedSignatures) invariant 0 <= i && i <= len(blindedSignatures) && len(proofs) == len(blindedSignatures) && len(secrets) == len(blindedSignatures) && len(rs) == len(blindedSignatures) && (forall j :: 0 <= j && j < i ==> (blindedSignatures[j].Amount in keyset.PublicKeys) && proofs[j].Amount == blindedSignatures[j].Amount && proofs[j].Secret == secrets[j] && proofs[j].Id == blindedSignatures[j].Id && hexok(blindedSignatures[j].C_) && proofs[j].C == hexenc(pt.ser(padd(pt.parse(hexdec(blindedSignatures[j].C_)), smul(sneg(sc.of(rs[j].Key)), pk.pt(*keyset.PublicKeys[blindedSignatures[j].Amount]))))) && ((blindedSignatures[j].DLEQ == nil) <==> (proofs[j].DLEQ == nil)) && (blindedSignatures[j].DLEQ != nil ==> wbsdleq(*blindedSignatures[j].DLEQ, *keyset.PublicKeys[blindedSignatures[j].Amount], blindedMessages[j].B_, blindedSignatures[j].C_) && proofs[j].DLEQ.E == blindedSignatures[j].DLEQ.E && proofs[j].DLEQ.S == blindedSignatures[j].DLEQ.S && proofs[j].DLEQ.R == hexenc(sc.ser(sc.of(rs[j].Key)))))
+
+// ---- NUT-13 counter discipline (C19), over the ghost counters of prelude module walletdb.
+// Stored counter is past every counter that may have been signed.
+//@ macro winv() = (forall id Str :: wdb.counter[id] >= wal.signedupto[id])
+
+// Deterministic outputs take the counters old(*counter) .. old(*counter)+len-1, in order.
+// A-COUNTER (assumed, listed in the evidence): a counter range never crosses 2^32.
+//@ func (*Wallet).createBlindedMessages
+//@   tags C19
+//@   modifies *counter, wal.derivedupto
+//@   nullable counter
+//@   assumes err == nil && counter != nil ==> old(*counter) + len(splitAmounts) < 4294967296
+//@   ensures @lens [C19] err == nil ==> len(r0) == len(splitAmounts) && len(r1) == len(splitAmounts) && len(r2) == len(splitAmounts)
+//@   ensures @advanced [C19] err == nil && counter != nil ==> *counter == old(*counter) + len(splitAmounts)
+//@   assumes err == nil && counter != nil ==> wal.derivedupto == upd(old(wal.derivedupto), keysetId, old(*counter) + len(splitAmounts))
+//@   assumes counter == nil ==> wal.derivedupto == old(wal.derivedupto)
+//@   loop range(splitAmounts) invariant 0 <= i && i <= len(splitAmounts) && len(blindedMessages) == len(splitAmounts) && len(secrets) == len(splitAmounts) && len(rs) == len(splitAmounts) && (counter != nil ==> *counter == (old(*counter) + i) % 4294967296)
+
+// Looking up (and, after a rotation or a fee change, re-saving) the active keyset
+// never moves a stored counter backwards.
+//@ func (*Wallet).getActiveKeyset
+//@   tags C19
+//@   requires w != nil && w.db != nil && w.mints != nil && winv()
+//@   ensures @past [C19] winv()
+//@   ensures @nonnil [C19] err == nil ==> result != nil
+//@   loop 1 invariant winv()
+//@   loop 2 invariant winv()
+
+//@ func (*Wallet).counterForKeyset
+//@   tags C19
+//@   ensures @stored [C19] result == wdb.counter[keysetId]
+
+// Every path that has outputs signed starts deriving at the stored counter and
+// stores a counter past everything it had signed before it returns successfully.
+//@ func (*Wallet).swapToSend
+//@   tags C19
+//@   requires w != nil && mint != nil && w.db != nil && winv()
+//@   calls (*Wallet).createBlindedMessages asserts @fresh [C19] counter == nil || *counter >= wal.signedupto[keysetId]
+//@   ensures @past [C19] err == nil ==> winv()
+
+//@ func (*Wallet).MintTokens
+//@   tags C19
+//@   requires w != nil && w.db != nil && winv()
+//@   calls (*Wallet).createBlindedMessages asserts @fresh [C19] counter == nil || *counter >= wal.signedupto[keysetId]
+//@   ensures @past [C19] r1 == nil ==> winv()
